@@ -171,12 +171,13 @@ func init() {
 	reg(&PropSpec{
 		ID: "C12",
 		Harnesses: func(tier string) []HarnessSpec {
-			return []HarnessSpec{es(12, tier, "equal-pid-distinct-object", "unsubscribe-of-another-pid", "lifecycle-event-naming-a-subscriber"), l1(12, tier, "lifecycle-events", tierSel(tier, 4, 5), 2, 2, 0, 1, 0)}
+			return []HarnessSpec{{Name: "concurrent-broadcasters", Pkg: "actor", Func: "ZZ_C12_Threads", Preempt: 2, Params: pm("G", 2), Witnesses: []string{"saw-events-of-the-other-broadcaster"}, Deadline: 40 * time.Minute},
+				es(12, tier, "equal-pid-distinct-object", "unsubscribe-of-another-pid", "lifecycle-event-naming-a-subscriber"), l1(12, tier, "lifecycle-events", tierSel(tier, 4, 5), 2, 2, 0, 1, 0)}
 		},
 		Bounds: func(tier string) string {
 			return fmt.Sprintf("event-stream unit: histories of %d subscribe/unsubscribe/broadcast operations over 2 subscriber PIDs, each given as the registered object or as an equal PID in a distinct object (symbolic), plus Unsubscribe of some other PID whose address and id are symbolic strings (any split of 10 bytes, only equality with a subscriber's PID excluded) and broadcasts of an ActorStoppedEvent naming a subscriber's PID, neither of which may change anybody's subscription; lifecycle events: L1 histories of %d operations with <= 2 panics counting ActorStarted/Restarted/Stopped events per occurrence", tierSel(tier, 4, 5), tierSel(tier, 4, 5))
 		},
-		Outside:     []string{"concurrent broadcasters (schedules)", "duplicate-id and dead-letter events (C10, C09)", "remote subscribers"},
+		Outside:     []string{"more than 2 concurrent broadcasters / preemption bound 2 (threaded harness: the event stream is a real process with its real Inbox; 2 goroutines each subscribe their own recording subscriber, broadcast twice, unsubscribe by value, broadcast once more)", "duplicate-id and dead-letter events (C10, C09)", "remote subscribers"},
 		Assumptions: seqAssume("event-stream unit as for C09; L1 process unit as for C04"),
 	})
 
